@@ -135,13 +135,13 @@ CHECKS["C12"] = dict(
     category="model_checking",
     text="Obs_Schema.tla relates, per (type, data) event, three independent statements - CIP-57 conformance to the PUBLISHED schema "
          "(as found in the blueprint, $refs followed), Aiken.tla's FromData (what `expect _: T = d` means) and the shape the type "
-         "prescribes for its schema - with two observations of the real code: Parameter::validate and the compiled expect. 26 types "
+         "prescribes for its schema - with two observations of the real code: Parameter::validate and the compiled expect. 54 types "
          "(ADTs, generic instantiations, records, Option, lists, tuples, pairs, maps, Bool, Void, Data, nested, recursive) x all values "
          "of a finite universe and random deeper values, serialised, plus every single-node near miss of them and random data. "
-         "The event is accepted iff all five coincide.",
+         "The event is accepted iff all five coincide. Pairs of sibling instances of one generic type are also converted in ONE program, in both orders: each conversion must do what it does alone.",
     design_ref="DESIGN.md section 6 C12",
     note="The data universe is produced by python (input generation only; the verdict is TLC's). Definite vs indefinite CBOR forms of "
-         "the same data are not distinguished. `@tag` / `@list` decorated types are not in the catalogue yet.",
+         "the same data are not distinguished. The catalogue includes `@tag` (on the type, on one of several constructors, on a single explicit constructor), `@list` records and String-bearing containers.",
     technique="TLA+ statement of CIP-57 conformance and of the type's Data conversion; trace validation of validate / expect observations")
 
 CHECKS["C07"] = dict(
@@ -152,11 +152,11 @@ CHECKS["C07"] = dict(
          "clause, exhaustiveness, and for every value the first matching clause with its bindings in order. Each clause list is given "
          "to the real checker (verdict class must agree; every pattern it reports missing must denote an unmatched value) and, when "
          "accepted, compiled and run on every value of the universe comparing clause index and bound values. " 
-         "Added universes: ListIntSmall (K = 3), TupListSmall (a list column beside a refutable column, K = 4), IntBig (literals beyond a machine word as placeholders).",
+         "Added universes: ListIntSmall (K = 3), TupListSmall (a list column beside a refutable column, K = 4), IntBig (literals beyond a machine word as placeholders). Every single pattern of the enumeration is also replayed under `let`: accepted iff it matches every value, and then its bindings are compared on the whole universe.",
     design_ref="DESIGN.md section 6 C07",
     note="The usefulness algorithm itself is not transcribed (the checker is compared with the semantic definition directly). `as` "
-         "patterns, alternatives and ByteArray literals are exercised by the C01 generator only. let / expect single-pattern forms are "
-         "covered by C01's generator.",
+         "patterns, alternatives and ByteArray literals are exercised by the C01 generator only; `expect` single-pattern forms by C01's generator "
+         "and directed families.",
     technique="TLC enumeration of pattern matrices with semantic verdicts; exhaustive replay into the real checker and compiled code")
 
 CHECKS["C16"] = dict(
@@ -248,9 +248,9 @@ CHECKS["C19"] = dict(
          "verdict, the reported units (equal to the cost of running the script directly, for scripts that ignore their arguments) and the "
          "hand-over of the budget must be the specification's in every order. Picky scripts succeed only on their own redeemer, their own "
          "datum and the right purpose, which binds the argument convention per language and the sorting of inputs, policies and accounts. " 
-         "Scripts may sit in the witness set, on a reference input, on a spent input, or be missing; the thorough tier adds every transaction of 3 redeemers over a smaller catalogue.",
+         "Scripts may sit in the witness set, on a reference input, on a spent input, or be missing; the thorough tier adds every transaction of 3 redeemers over a smaller catalogue. Each transaction is run once more with every spent / referenced output taken from ONE previous transaction (out-refs differing by index only), and Plutus V1 transactions are enumerated on their own (MC_TxSimV1.cfg).",
     design_ref="DESIGN.md section 6 C19",
-    note="No cost models are supplied (the `aiken tx simulate` path). Certificates, votes, proposals, PlutusV1 and the time range are "
+    note="No cost models are supplied (the `aiken tx simulate` path). Certificates, votes, proposals and the time range are "
          "not exercised; the script context is not specified field by field. Which failure is reported when several are present is not "
          "compared (the property does not say).",
     technique="TLA+ model of the redeemer loop checked by TLC, every behaviour replayed as a real transaction under permutations")
